@@ -945,6 +945,79 @@ func runSlotMax(c *Ctx, r *Reporter) {
 	for _, need := range []string{"outer.nestedMaxIndex", "s.nestedMaxIndex", "s.index"} {
 		r.Check(deps[need], fd.QName()+"#depends-on:"+need, p.Rel(instrPos(store)), "the propagated requirement depends on "+need, "the slot requirement stored into the outer table no longer depends on "+need+": blocks nested or placed side by side in a certain way get too few local slots, and the VM's operand stack overwrites live variables")
 	}
+	// the requirement is propagated on every path that returns the outer table (no early return before the store)
+	early := ""
+	for _, ret := range returnsOf(sf) {
+		if len(ret.Results) != 1 {
+			continue
+		}
+		// returns of the receiver itself (global table: nothing to propagate to) are fine
+		if ret.Results[0] == ssa.Value(sf.Params[0]) {
+			continue
+		}
+		if !instrDominates(store, ret) {
+			early = p.Rel(instrPos(ret))
+		}
+	}
+	r.Check(early == "", fd.QName()+"#propagates-on-every-path", p.Rel(instrPos(store)), "every return of the outer table follows the propagation of the slot requirement",
+		"Pop returns the outer table at "+early+" without propagating the slot requirement: the requirement of blocks nested inside a scope that declares nothing itself is lost, "+
+			"so deeper locals share slots with the operand stack or with loop state")
+	// Push: the nested table continues the numbering of the outer table (or starts at 0 under the global table)
+	if pf := FindFunc(pkg, "(*SymbolTable).Push"); pf != nil {
+		psf := p.SSAFunc(pf.Obj)
+		var idxStore *ssa.Store
+		for _, b := range psf.Blocks {
+			for _, ins := range b.Instrs {
+				if st, ok := ins.(*ssa.Store); ok {
+					if fa, ok := st.Addr.(*ssa.FieldAddr); ok {
+						if _, name := fieldAddrInfo(fa); name == "index" {
+							if _, fresh := fa.X.(*ssa.Alloc); fresh {
+								idxStore = st
+							}
+						}
+					}
+				}
+			}
+		}
+		if idxStore == nil {
+			r.Viol(pf.QName()+"#continues-numbering", p.Rel(pf.Decl.Pos()), "Push does not initialise the index of the nested table")
+		} else {
+			okSrc := true
+			why := ""
+			var src func(v ssa.Value, depth int)
+			src = func(v ssa.Value, depth int) {
+				if depth > 4 {
+					okSrc, why = false, "too deep"
+					return
+				}
+				switch x := v.(type) {
+				case *ssa.Const:
+					if x.Value == nil || x.Value.ExactString() != "0" {
+						okSrc, why = false, "constant "+x.String()
+					}
+				case *ssa.Phi:
+					for _, e := range x.Edges {
+						src(e, depth+1)
+					}
+				case *ssa.UnOp:
+					fa, ok := x.X.(*ssa.FieldAddr)
+					if ok {
+						if _, name := fieldAddrInfo(fa); name == "index" && fa.X == ssa.Value(psf.Params[0]) {
+							return
+						}
+					}
+					okSrc, why = false, x.String()
+				default:
+					okSrc, why = false, v.String()
+				}
+			}
+			src(idxStore.Val, 0)
+			r.Check(okSrc, pf.QName()+"#continues-numbering", p.Rel(instrPos(idxStore)), "the nested table starts at the outer table's next free index (0 under the global table)",
+				"the nested table's first index is "+why+", not the outer table's next free index: with three or more nested scopes an inner variable gets the slot of a live outer one")
+		}
+	} else {
+		r.Undecided("(*SymbolTable).Push not found")
+	}
 	// the three quantities are absolute slot indexes: they combine by maximum, never by arithmetic
 	arith := ""
 	var scan func(v ssa.Value, depth int)
